@@ -56,6 +56,34 @@ func gen(tier string) []proto.Item {
 			}
 		}
 	}
+	// the reply to a concurrent run's probe of the same TTL (same responder, same per-probe identifier, the neighbouring
+	// flow: source port / echo identifier + 1) reaches this run's capture handle well before the reply to its own probe:
+	// the hop's round-trip time is still measured to its own reply. Strict variants (the relaxed ones do not compare flows).
+	for _, v := range proto.Variants {
+		vi := proto.Info(v)
+		if vi.Relaxed {
+			continue
+		}
+		for _, t := range []int{2, 4} {
+			s := proto.Scn{Variant: v, First: 1, Last: 5, Dest: 4, IPIDBase: 500, EchoBase: 41, TimeoutMs: 300, DelayMs: 10}
+			s.Hops = map[int]proto.HopSpec{t: {DelayUs: 60000}}
+			form, from, field := vi.TEForm, proto.Router(vi.V6, 0, t).String(), "q.sport"
+			if vi.Kind == "icmp4" || vi.Kind == "icmp6" {
+				field = "q.echoid"
+			}
+			if t == 4 {
+				form, from = vi.DestForm, s.Target().String()
+				switch vi.Kind {
+				case "icmp4", "icmp6":
+					field = "echo.id"
+				case "tcp", "tcpparis", "sack":
+					field = "tcp.dport"
+				}
+			}
+			s.Inject = []proto.Inject{{OnTTL: t, AnswerTTL: t, Form: form, From: from, DelayUs: 2000, Perturb: &simnet.Perturb{Field: field, Op: "+1"}, Tag: "neighbouring-flows-reply"}}
+			items = append(items, proto.Item{Scn: s, Class: fmt.Sprintf("%s/neighbouring-flows-reply-first/ttl%d", v, t)})
+		}
+	}
 	items = append(items, ForwardReorder(tier, 500, 41)...)
 	return items
 }
